@@ -497,8 +497,7 @@ def run_shard(ctx):
                     if value < 0 or value != value.to_integral():
                         ctx.nontrivial(("len", str(value), unit))
                     roundtrip_length(ctx, value, unit, "random")
-                if ctx.evaluations % 997 == 0:
-                    ctx.sample({"kind": kind, "value": repr(val)})
+                ctx.maybe_sample({"kind": kind, "value": repr(val)}, 997)
             except Abandon:
                 pass
         return t
